@@ -548,6 +548,9 @@ def build_world(workdir, seed, n_genes=24, taxonomy='d2_bal', n_cells_per_leaf=6
         Xe = np.rint(rng.uniform(0, 60, size=(Xq.shape[0], len(extra))))
         Xq = np.hstack([Xq, Xe])
         q_genes += extra
+        if zero_cell and Xq.shape[0] >= 2:
+            # the zero cell stores nothing at all (an empty row of a sparse query matrix)
+            Xq[1, :] = 0.0
     if permute_query_genes:
         gp = rng.permutation(len(q_genes))
         Xq = Xq[:, gp]
